@@ -105,7 +105,7 @@ def redzone_sweep(chk, caps):
             log.unlink()
         cfg = {"seed": chk.seed * 53 + (int(cap) if cap else 9), "priority": GROWTH if cap else GROWTH[:4],
                "max_problems": (len(GROWTH) + 40) if quick else 400, "n_inputs": 2 if quick else 3, "fmt_cap": 2 if quick else 5}
-        env = impl_env({GUARD: cap or "", "LD_PRELOAD": str(so), "REDZONE_LOG": str(log)})
+        env = impl_env({GUARD: cap or "", "LD_PRELOAD": str(so), "REDZONE_LOG": str(log), "REDZONE_POISON": "1"})
         if not cap:
             env.pop(GUARD, None)
         r = sh([PY, "-B", str(VERIF / "tools" / "harness" / "c05_redzone.py")], env=env, input=json.dumps(cfg), timeout=1500, cwd=str(VERIF))
